@@ -50,7 +50,7 @@ func init() {
 						continue
 					}
 					bs = append(bs, core.Batch{Name: fmt.Sprintf("nats-e%d-d%d", ev, d), TimeoutS: 300,
-						Params: core.Params(c15Params{Kind: "nats", Events: ev, Duration: d, Rounds: tierPick(tier, 3, 12), Workers: []int{1, 4, 32}[i%3]})})
+						Params: core.Params(c15Params{Kind: "nats", Events: ev, Duration: d, Rounds: tierPick(tier, 3, 30), Workers: []int{1, 4, 32}[i%3]})})
 					i++
 				}
 			}
